@@ -174,12 +174,52 @@ def search_histories(ctx):
                 ctx.counterexample("history:%s:%s" % (backend.split("-")[0], v.split("(")[0]), "state after a history with mode creation/deletion is not physical on %s: %s" % (backend, v), data)
 
 
+def fock_top_level_case(rng, pure):
+    """Population in the highest Fock level, passive mixing (total photon number stays below the cutoff), then loss:
+    nothing is truncated, so the trace must stay 1 and the photon number must scale exactly by T."""
+    cutoff = rng.choice([3, 4])
+    n = rng.randint(1, 2)
+    cmds = [["Fock", [cutoff - 1], [0], False]]
+    if n == 2 and rng.random() < 0.7:
+        cmds.append(["BSgate", [round(rng.uniform(0.2, 1.3), 3), round(rng.uniform(-1, 1), 3)], rng.sample([0, 1], 2), False])
+    T = rng.choice([0.5, 0.25, 0.8, round(rng.uniform(0.1, 0.9), 3)])
+    k = rng.randrange(n)
+    return {"cutoff": cutoff, "n": n, "cmds": cmds, "loss": [T, k], "pure": pure}
+
+
+def eval_fock_top_level(d):
+    spec0 = {"n": d["n"], "cmds": d["cmds"]}
+    spec1 = {"n": d["n"], "cmds": d["cmds"] + [["LossChannel", [d["loss"][0]], [d["loss"][1]], False]]}
+    b = "fock-pure" if d["pure"] else "fock-mixed"
+    s0 = bc.run(spec0, b, d["cutoff"])
+    s1 = bc.run(spec1, b, d["cutoff"])
+    tr0, tr1 = float(np.real(s0.trace())), float(np.real(s1.trace()))
+    k = d["loss"][1]
+    n0, n1 = float(s0.mean_photon(k)[0]), float(s1.mean_photon(k)[0])
+    if abs(tr0 - 1) < 1e-9 and abs(tr1 - 1) > 1e-8:
+        return "trace-lost-without-truncation(%.6f)" % tr1
+    if abs(n1 - d["loss"][0] * n0) > 1e-8:
+        return "loss-photon-number(%.6f vs %.6f)" % (n1, d["loss"][0] * n0)
+    return None
+
+
 _search_circuits = search
 
 
 def search(ctx):
     _search_circuits(ctx)
     search_histories(ctx)
+    rng = ctx.rng
+    for i in range(ctx.budget(16, 120)):
+        d = fock_top_level_case(rng, pure=(i % 2 == 0))
+        try:
+            v = eval_fock_top_level(d)
+        except Exception as e:
+            ctx.counterexample("fock-top-level:raises:%s" % type(e).__name__, "raised %r" % e, {"check": "fock-top", "case": d})
+            continue
+        ctx.case(d, nontrivial=True, bucket="fock-top-level")
+        if v:
+            ctx.counterexample("fock:loss:%s" % v.split("(")[0], "loss on a state with population in the top Fock level: %s" % v, {"check": "fock-top", "case": d})
 
 
 c05_names_g = list(sfgen.GAUSSIAN_GATES) + list(sfgen.CHANNELS) + list(sfgen.PREPS)
@@ -188,6 +228,10 @@ c05_names_f = [x for x in c05_names_g if x not in ("ThermalLossChannel", "Therma
 
 def replay(ctx, data):
     d = data["data"]
+    if d.get("check") == "fock-top":
+        v = eval_fock_top_level(d["case"])
+        print("fock top level:", v)
+        return bool(v)
     if d.get("check") == "hist":
         v, m = check_state(d["backend"], d["spec"])
         print("state:", v, m)
